@@ -1662,7 +1662,10 @@ void mmd_assign_ambidextrous_tokens_in_block(mmd_engine * e, token * block, size
 			case SUPERSCRIPT:
 			case SUBSCRIPT:
 				if (e->extensions & EXT_COMPATIBILITY) {
-					t->type = TEXT_PLAIN;
+					// Not markup in compatibility mode -- but keep the token type,
+					// since '^' and '~' must be escaped by the LaTeX writers
+					t->can_open = 0;
+					t->can_close = 0;
 					break;
 				}
 
